@@ -203,17 +203,17 @@ def ob_align(kind, timeout):
 
 
 def ob_morph(k, filt, labels, timeout):
-    names = ["hi"] + _ts(k) + _ts(k, "t")
+    names = ["lo", "hi"] + _ts(k) + _ts(k, "t")
 
-    def pre(hi, *rest):
+    def pre(lo, hi, *rest):
         ts, tt = rest[: 2 * k], rest[2 * k:]
-        return ivs_wf_pre(0.0, hi, *ts) & ivs_wf_pre(0.0, 512.0, *tt) & (hi <= 512.0)
+        return ivs_wf_pre(lo, hi, *ts) & ivs_wf_pre(0.0, 512.0, *tt) & (hi <= 512.0) & (0.0 <= lo)
 
     filters = {"none": None, "all": lambda l: True, "nothing": lambda l: False, "by-label": lambda l: l == labels[0]}
 
-    def body(hi, *rest):
+    def body(lo, hi, *rest):
         ts, tt = rest[: 2 * k], rest[2 * k:]
-        src = IntervalTier("s", mk_ivs(ts, labels), 0.0, hi)
+        src = IntervalTier("s", mk_ivs(ts, labels), lo, hi)
         tgt = IntervalTier("g", mk_ivs(tt, ["p", "q", "r"]), 0.0, 512.0)
         b1, b2 = snap_tier(src), snap_tier(tgt)
         f = filters[filt]
@@ -239,12 +239,39 @@ def ob_morph(k, filt, labels, timeout):
                     return "gap before interval %d" % i
         if k > 0 and r.maxTimestamp - es[-1][1] != hi - ts[-1]:
             return "trailing gap"
-        if r.minTimestamp != 0.0:
+        if r.minTimestamp != lo:
             return "span start"
         return True
 
     return Ob("morph-k%d-%s%s" % (k, filt, "-blanklabel" if "" in labels[:k] else ""), F(*names), body, pre, fmode="real", timeout=timeout, funcs=[FUNCS[3], FUNCS[5]], bounds="source and target with %d intervals each, labels %r, filter %s; exact reals" % (k, labels[:k], filt),
               canaries=[{"target": "praatio.data_classes.interval_tier:IntervalTier.morph", "find": "newStart = sourceInterval.start + cumulativeAdjustAmount", "replace": "newStart = sourceInterval.start"}] if (k == 2 and filt == "none" and "" not in labels[:k]) else [])
+
+
+def ob_dejitter_after_reference_edit(timeout):
+    """state carried between calls: after the reference tier's timestamps have been read once
+    and the reference was then edited (deleteEntry), dejitter uses the reference as it is NOW"""
+    names = ["D", "hi", "s0", "e0", "r0", "r1"]
+
+    def pre(D, hi, s0, e0, r0, r1):
+        return ivs_wf_pre(0.0, hi, s0, e0) & pts_wf_pre(0.0, hi, r0, r1) & (hi <= 512.0) & (D > 0) & (D <= 512.0) & sep(0.0, hi, s0, e0, r0, r1) & _sepD(D, (s0, e0), (r0, r1))
+
+    def body(D, hi, s0, e0, r0, r1):
+        tier = IntervalTier("t", [Interval(s0, e0, "x")], 0.0, hi)
+        ref = PointTier("r", [Point(r0, "m"), Point(r1, "n")], 0.0, hi)
+        ref.timestamps  # first read (what a first dejitter / alignBoundariesAcrossTiers does)
+        ref.deleteEntry(ref.entries[0])
+        if ref.timestamps != [r1]:
+            return "timestamps of the edited reference are stale"
+        try:
+            got = tuples(tier.dejitter(ref, D).entries)
+        except errors.PraatioException:
+            got = "raise"
+        ns = r1 if (r1 - s0 if r1 >= s0 else s0 - r1) <= D else s0
+        ne = r1 if (r1 - e0 if r1 >= e0 else e0 - r1) <= D else e0
+        want = "raise" if ns >= ne else [(ns, ne, "x")]
+        return True if got == want else "dejitter used timestamps the reference no longer has"
+
+    return Ob("dejitter-after-reference-edit", F(*names), body, pre, fmode="real", timeout=timeout, funcs=FUNCS[:2] + ["PointTier.timestamps/deleteEntry"], bounds="interval tier k=1, point reference with 2 points: read timestamps; delete the first point; dejitter")
 
 
 def ob_morph_mismatch(timeout):
@@ -273,7 +300,9 @@ def obligations(tier):
         obs.append(ob_morph(2, "none", ["x", ""], 120))
         obs.append(ob_morph(2, "nothing", ["x", "y"], 120))
         obs.append(ob_morph_mismatch(30))
+        obs.append(ob_dejitter_after_reference_edit(400))
     else:
+        obs.append(ob_dejitter_after_reference_edit(2400))
         for k, n in ((1, 1), (1, 2), (1, 3), (2, 1), (2, 2)):
             obs.append(ob_dejitter_interval(k, n, "point", 2400))
         obs.append(ob_dejitter_interval(1, 2, "interval", 2400))
